@@ -6,7 +6,8 @@ from fractions import Fraction
 VERIF = os.path.dirname(os.path.dirname(os.path.abspath(__file__)))
 os.environ.setdefault("PYTHONHASHSEED", "0")
 os.environ.setdefault("MPLBACKEND", "Agg")
-sys.path.insert(0, "/repo/src")
+REPO = os.environ.get("KOALA_REPO", "/repo")
+sys.path.insert(0, os.path.join(REPO, "src"))
 import numpy as np
 
 warnings.filterwarnings("ignore")
